@@ -51,10 +51,24 @@ def setupRetry (n : Nat) (es : List (Nat × Nat)) (st : Nat → NStatus) (R : NS
 def statusAfter (n : Nat) (es : List (Nat × Nat)) (st : Nat → NStatus) (R : NStatus → Bool) : Nat → NStatus :=
   fun v => if (setupRetry n es st R).1.cleared v then .none else st v
 
-/-- the reset set of the code: `dict[u] == NodeStatusError || dict[u] == NodeStatusCancel` -/
+/-- the reset set of the code: `dict[u] == NodeStatusError || dict[u] == NodeStatusCancel ||
+    dict[u] == NodeStatusRunning` (the last disjunct since fix 5b4cd49, finding F11) -/
 def resetSet : NStatus → Bool
   | .error => true
   | .cancel => true
+  | .running => true
   | _ => false
+
+/-- the reset set of the pinned tree (before the fix): a recorded `running` step was kept -/
+def resetSetPinned : NStatus → Bool
+  | .error => true
+  | .cancel => true
+  | _ => false
+
+/-- recorded state of the retried run → state the retry run starts from: cleared steps start from
+    scratch (`clearState` zeroes status, retry count and done count), the others keep their record -/
+def initRetry (n : Nat) (es : List (Nat × Nat)) (st : Nat → NStatus) (rc dc : Nat → Nat) (R : NStatus → Bool) : State :=
+  let cl := (setupRetry n es st R).1.cleared
+  { nd := fun i => if cl i then {} else { status := st i, retry := rc i, doneCnt := dc i } }
 
 end BdModel.Retry
